@@ -130,30 +130,37 @@ func JobQueueMain(args []string) (interface{}, error) {
 			if o.MaxJobs == 0 {
 				o.MaxJobs = 3
 			}
-			q := NewJQ(o, tr, r)
-			q.Reset()
-			for _, l := range s.Steps {
-				if !apply(q, l) {
-					sum.Diverged++
-					sum.DivergedAt[l.A]++
-					break
-				}
+			// a directed schedule is run twice: followed by the drain alone, and followed by seeded random steps and the drain
+			variants := []int{0}
+			if *suffix > 0 {
+				variants = []int{0, *suffix}
 			}
-			// directed schedules: continue from the reached state with seeded random steps before draining
-			for k := 0; k < *suffix; k++ {
-				en := q.Enabled(rng, q.W.Now()+2, *faultP, *applied)
-				if len(en) == 0 {
-					break
+			for _, nsuffix := range variants {
+				q := NewJQ(o, tr, r)
+				q.Reset()
+				for _, l := range s.Steps {
+					if !apply(q, l) {
+						sum.Diverged++
+						sum.DivergedAt[l.A]++
+						break
+					}
 				}
-				if !apply(q, en[rng.Intn(len(en))]) {
-					break
+				// directed schedules: continue from the reached state with seeded random steps before draining
+				for k := 0; k < nsuffix; k++ {
+					en := q.Enabled(rng, q.W.Now()+2, *faultP, *applied)
+					if len(en) == 0 {
+						break
+					}
+					if !apply(q, en[rng.Intn(len(en))]) {
+						break
+					}
 				}
+				if !q.Finale(2000) {
+					sum.DrainFailed++
+				}
+				sum.Runs++
+				r++
 			}
-			if !q.Finale(2000) {
-				sum.DrainFailed++
-			}
-			sum.Runs++
-			r++
 		}
 	default:
 		return nil, fmt.Errorf("unknown mode %q", *mode)
